@@ -252,7 +252,7 @@ pub enum Inner {
     Gen(Generic<FdX>),
     Exec(Executor<u64>),
     Stream(StreamSource<ScriptStream>),
-    Comp(Vec<Child>),
+    Comp(Option<Timer>, Vec<Child>),
     Raw(FdX),
     Gone,
 }
@@ -283,6 +283,14 @@ impl<const L: bool> Drop for Zoo<L> {
 }
 
 impl<const L: bool> Zoo<L> {
+    /// the Timer of a timer source or the watchdog of a composite
+    pub fn timer_mut(&mut self) -> Option<&mut Timer> {
+        match &mut self.inner {
+            Inner::Timer(t) => Some(t),
+            Inner::Comp(tm, _) => tm.as_mut(),
+            _ => None,
+        }
+    }
     /// should this registration call fail by injection? (counts the call)
     fn fault(&mut self, call: RegCall) -> Option<bool> {
         let uid = self.uid;
@@ -309,7 +317,10 @@ impl<const L: bool> Zoo<L> {
             Inner::Gen(s) => s.register(poll, f),
             Inner::Exec(s) => s.register(poll, f),
             Inner::Stream(s) => s.register(poll, f),
-            Inner::Comp(cs) => {
+            Inner::Comp(tm, cs) => {
+                if let Some(t) = tm {
+                    t.register(poll, f)?;
+                }
                 for c in cs.iter_mut() {
                     match c {
                         Child::Plain(g) => g.register(poll, f)?,
@@ -330,7 +341,10 @@ impl<const L: bool> Zoo<L> {
             Inner::Gen(s) => s.reregister(poll, f),
             Inner::Exec(s) => s.reregister(poll, f),
             Inner::Stream(s) => s.reregister(poll, f),
-            Inner::Comp(cs) => {
+            Inner::Comp(tm, cs) => {
+                if let Some(t) = tm {
+                    t.reregister(poll, f)?;
+                }
                 for c in cs.iter_mut() {
                     match c {
                         Child::Plain(g) => g.reregister(poll, f)?,
@@ -351,7 +365,10 @@ impl<const L: bool> Zoo<L> {
             Inner::Gen(s) => s.unregister(poll),
             Inner::Exec(s) => s.unregister(poll),
             Inner::Stream(s) => s.unregister(poll),
-            Inner::Comp(cs) => {
+            Inner::Comp(tm, cs) => {
+                if let Some(t) = tm {
+                    t.unregister(poll)?;
+                }
                 for c in cs.iter_mut() {
                     match c {
                         Child::Plain(g) => g.unregister(poll)?,
@@ -465,10 +482,41 @@ impl<const L: bool> EventSource for Zoo<L> {
                         deliver(Ev::Item(it));
                     })
                     .map_err(|e| e.into()),
-                Inner::Comp(cs) => {
+                Inner::Comp(tm, cs) => {
                     let mut action = PostAction::Continue;
                     let mut err: Option<BoxErr> = None;
+                    if let Some(t) = tm {
+                        // the watchdog sub-source: it never lapses (Drop and unrepresentable deadlines become "far")
+                        let r = t.process_events(readiness, token, |dl, _| {
+                            let r = deliver(Ev::Timeout(dl));
+                            match r.tact {
+                                TAct::ToInstant(d) if resolve_dl(d).is_some() => {
+                                    let i = resolve_dl(d).unwrap();
+                                    exec::timer_rearmed(uid, Some((i, i)));
+                                    TimeoutAction::ToInstant(i)
+                                }
+                                TAct::ToDuration(ms) => {
+                                    let d = Duration::from_millis(ms as u64);
+                                    exec::timer_rearmed(uid, Some((Instant::now() + d, Instant::now() + d + Duration::from_secs(3600))));
+                                    exec::timer_pending_hi(uid, d);
+                                    TimeoutAction::ToDuration(d)
+                                }
+                                _ => {
+                                    let i = Instant::now() + Duration::from_secs(3600);
+                                    exec::timer_rearmed(uid, Some((i, i)));
+                                    TimeoutAction::ToInstant(i)
+                                }
+                            }
+                        });
+                        exec::timer_close_hi(uid);
+                        if let Err(e) = r {
+                            err = Some(e.into());
+                        }
+                    }
                     for (k, c) in cs.iter_mut().enumerate() {
+                        if err.is_some() {
+                            break;
+                        }
                         let mut cbk = |r: Readiness, _: &mut calloop::generic::NoIoDrop<FdX>| -> std::io::Result<PostAction> {
                             let cr = deliver(Ev::Fd { child: k, readable: r.readable, writable: r.writable });
                             Ok(to_pa(cr.child))
